@@ -4,7 +4,8 @@ RULE = ("60 (quick) / 400 (thorough) random operation sequences of 40/80 steps o
         "url pool incl. the empty string, duplicates and the old primary as a secondary; NextReadEndpoint with all five preferences; Primary(); mark dead/alive/healthy on any endpoint; "
         "dumps - each result compared with the Coq model; direct oracles (never dead, never excluded, found when a live permitted one exists); plus 12/60 whole-client scenarios against "
         "scripted HTTP servers (ok/500/404/refused, leader changes, redirects, discovery on/off) checking acknowledged writes end at the leader, bounded requests per call and termination. "
-        "distinct = (case, step); non-trivial = selection among >1 endpoints / call issuing >1 request")
+        "End to end: a real 3-node raft cluster behind the real API muxes on the advertised addresses; a client built with NewHTTPClientFromConfig that believes a follower is the primary (discovery off/on) issues 4 writes: no write may be "
+        "acknowledged unless it is in the log with its own digest, and the client must converge on the leader. distinct = (case, step); non-trivial = selection among >1 endpoints / call issuing >1 request")
 
 
 def run(v, tier, seed, replay):
@@ -20,6 +21,10 @@ def run(v, tier, seed, replay):
                         dict(kind="correspondence", theorem="C20_* are about Client/Topology.v; its correspondence with client/topology.go no longer checks", mismatches=mism, seed=seed, tier=tier), no_input=True)
     finally:
         s.cleanup()
+    # end to end: real 3-node cluster behind the real API muxes, a client built from a Config (as the commands do) that
+    # believes a follower is the primary
+    s2, results = common.node_session(v, "C20", ["redirect"], tier, seed, RULE)
+    s2.cleanup()
     v.coverage["trusted_base"] = vlib.TRUSTED_COMMON + [
         "hook client/verif_export.go (add-only, //go:build verif) exposing the unexported topology",
         "request loops (callAny, callPrimary, discover) are modelled over scripted request outcomes; net/http, redirects, JSON decoding of /info/shards and the retrier's sleeps are not modelled: whole-client scenarios exercise them against scripted servers with direct oracles only",
